@@ -397,6 +397,7 @@ class Opt_(Obj):
 
 
 class SingleNestedPropagate(NestedNodeKernel):
+    property_ids = ("C09", "C02")
     name = "nested_graph_node.cpp:single_nested_graph_propagate_schedule"
     tu = "src/hgraph/runtime/nested_graph_node.cpp"
     filter = "single_nested_graph_propagate_schedule"
@@ -419,7 +420,8 @@ class SingleNestedPropagate(NestedNodeKernel):
         ctx = I.ctx
         pg = self.pg
         on = z3.And(z3.Bool("opt_propagate_child_schedule"), self.child_has_value, self.nst0 != MAX_DT)
-        ctx.oblige("ensures.parent-node-scheduled-at-child-next-time[C09 pull after start / try_except evaluate]",
+        ctx.oblige("ensures.parent-node-scheduled-at-child-next-time[C09 pull after start / try_except evaluate; C02 a nested child's wake-up is "
+                   "honoured at exactly its time, including the start time]",
                    z3.If(on, z3.And(pg.get(ctx, "calls") == 1, pg.get(ctx, "last_i") == pg.idx, pg.get(ctx, "last_t") == self.nst0),
                          pg.get(ctx, "calls") == 0), kind="post-normal")
         ctx.oblige("ensures.Deleg-established", z3.Implies(on, pg.get(ctx, "eff") <= self.nst0), kind="post-normal")
